@@ -367,6 +367,9 @@ theorem binomial_shape {cmp : K → K → Int} (hc : LawfulCmp cmp) (eqV : V →
         simp only [obind_ok] at hrun
         refine ih _ regs' ?_ hrun
         exact update_all (P := BShape) hall (Binomial.step_shape hc eqV (regs r) (hall r) o p.1 p.2 hstep)
+    | mergeOther d =>
+      simp only [Impl.mstep, obind_ok] at hrun
+      exact ih _ regs' hall hrun
     | merge d s =>
       simp only [Impl.mstep] at hrun
       by_cases hds : d = s
